@@ -21,6 +21,7 @@ type specEnv struct {
 	entry       bool // evaluating at function entry (requires / writes): params only
 	oldMap      map[string]*Cell
 	inOld       bool
+	loopOrd     int // > 0 while a loop invariant is translated: the loop's ordinal (for entry())
 	crossTheory bool
 	bound       map[string]bool
 }
@@ -300,6 +301,10 @@ func (f *frame) specIdent(name string, env *specEnv) sval {
 		if i := strings.IndexByte(name, '@'); i >= 0 {
 			base = name[:i]
 			fmt.Sscanf(name[i+1:], "%d", &k)
+		}
+		if nn, ok := t.renames[base]; ok && f.parent == nil {
+			base = nn // the local was renamed since the contract was written
+			name = nn
 		}
 		// parameters: at entry, in postconditions and under old() -> entry value
 		if p, ok := f.params[base]; ok && k == 0 && (env.entry || env.post || env.inOld) {
@@ -757,6 +762,22 @@ func (f *frame) specCall(x *SCall, env *specEnv) sval {
 		env.inOld = true
 		v := arg(0)
 		env.inOld = saved
+		return v
+	case "entry":
+		// entry(e), in a loop invariant: e in the state in which the loop was entered (every cell of e
+		// is read from the snapshot vcgen keeps at the loop head; bound variables stay)
+		if env.loopOrd == 0 {
+			specFail("entry(): only inside a loop invariant")
+		}
+		v := arg(0)
+		pre := fmt.Sprintf("entry$%d$", env.loopOrd)
+		v.e = RenameCells(v.e, func(c *Cell) Expr {
+			if strings.HasPrefix(c.Name, "entry$") || strings.HasPrefix(c.Name, "old$") {
+				return c
+			}
+			return &Cell{pre + c.Name, c.S}
+		})
+		v.lv = nil
 		return v
 	case "disjoint", "disjointcap":
 		var rs [][2]Expr
